@@ -12,7 +12,7 @@ def rng_for(seed, prop, i):
 def gen_contract(r, is_async, allow_forms=True):
     c = {}
     if is_async:
-        c["style"] = r.choice(["sync", "async", "async", "corolambda"])
+        c["style"] = r.choice(["sync", "async", "async", "corolambda", "awaitable"])
     if allow_forms:
         e = r.choice(ERROR_FORMS)
         if e != "default":
@@ -31,7 +31,7 @@ def gen_unit_spec(r, name, is_async, max_pre=3, max_post=2, max_snap=2, forms=Tr
     u["pre"] = [gen_contract(r, is_async, forms) for _ in range(r.randint(0, max_pre))]
     u["post"] = [gen_contract(r, is_async, forms) for _ in range(r.randint(0, max_post))]
     if u["post"]:
-        u["snaps"] = [({"style": r.choice(["sync", "async", "corolambda"])} if is_async else {}) for _ in range(r.randint(0, max_snap))]
+        u["snaps"] = [({"style": r.choice(["sync", "async", "corolambda", "awaitable"])} if is_async else {}) for _ in range(r.randint(0, max_snap))]
     return u
 
 
